@@ -691,6 +691,22 @@ func init() {
 			c.Run(kMashAdd, mashAddCase(n, k, one), nt, "add/one-by-one")
 		}
 
+		// hairpins: sequences made of k-mers X + M + revcomp(X), which agree with their
+		// own reverse complement on the first |X| bases; the sketch of such a sequence
+		// and of its reverse complement must still be the same
+		nHp := c.Pick(150, 2500)
+		for it := 0; it < nHp; it++ {
+			x := c.RandBytes(1+c.Intn(14), []byte("ACGT"))
+			m := c.RandBytes(c.Intn(4), []byte("ACGT"))
+			hp := append(append(append([]byte{}, x...), m...), rcRef(x)...)
+			k := len(hp)
+			sq := append(append(c.RandBytes(c.Intn(4), []byte("ACGT")), hp...), c.RandBytes(c.Intn(4), []byte("ACGT"))...)
+			n := 1 + c.Intn(4)
+			c.Run(kMashSeq, mashSeqCase(n, k, [][]byte{sq}), true, "sequences/hairpin")
+			c.Run(kMashSeq, mashSeqCase(n, k, [][]byte{rcRef(sq)}), true, "sequences/hairpin-strand")
+			c.Run(kMashJaccard, mashJaccardCase(n, n, k, [][]byte{sq}, [][]byte{rcRef(sq)}), true, "jaccard/hairpin-strand")
+		}
+
 		// malformed: foreign bytes, non-ASCII, bad n / k
 		nBad := c.Pick(300, 3000)
 		utf := [][]byte{{0xc4, 0xb1} /* U+0131, upper = I */, {0xc5, 0xbf} /* U+017F, upper = S */, {0xe2, 0x84, 0xaa} /* Kelvin sign */, {0xc3, 0xa9}, {0xff}, {0x80}, {0xc3}, {0xef, 0xbd, 0x81} /* fullwidth a */}
